@@ -197,14 +197,30 @@ def gen_case(rng):
           '_block_prefix': extra}
 
 
+def gen_located_case(rng):
+  """The entry file exists in several search locations / readers and every copy fails at an include
+  after its first statement: exactly the copy found first is applied up to there, the error
+  propagates, no later copy is tried."""
+  from props.c14 import gen_resolve_case
+  while True:
+    c = gen_resolve_case(rng)
+    if c['ops'][0]['present']:
+      break
+  c['ops'][0]['_bad_include'] = True
+  c['_kind'] = 'located'
+  return c
+
+
 def gen_cases(rng, tier, boost=1):
   n = (600 if tier == 'quick' else 20000) * boost
-  for _ in range(n):
-    yield gen_case(rng)
+  for k in range(n):
+    yield gen_located_case(rng) if k % 8 == 7 else gen_case(rng)
 
 
 def run_impl(case):
   out = gindom.run_impl(case)
+  if case.get('_kind') == 'located':
+    return out
   # fresh interpreter: the registrations, then the flattened prefix
   regs = [o for o in case['ops'] if o['op'] == 'register']
   fresh = gindom.run_impl({'dom': 'gin', 'ops': regs + [
@@ -215,6 +231,13 @@ def run_impl(case):
 
 
 def oracle(case, impl):
+  if case.get('_kind') == 'located':
+    op, res = case['ops'][0], impl['out'][0]
+    order = [(p, r) for p in ([''] if op['abs'] else op['prefixes']) for r in op['readers']]
+    first = next(([p, r] for p, r in order if [p, r] in [list(x) for x in op['present']]), None)
+    if res.get('ok') != first:
+      return f'every copy fails at an include after its first statement; the copy found first is {first}, observed {res}'
+    return None
   nreg = case['_nregs']
   res = impl['out'][nreg]
   fr = impl['fresh']
@@ -244,10 +267,15 @@ def oracle(case, impl):
 
 
 def nontrivial(case, impl):
+  if case.get('_kind') == 'located':
+    return len(case['ops'][0]['present']) >= 2
   return case.get('_fault') is not None and case.get('_flat_text', '').strip() != ''
 
 
 def tally(stats, case, impl):
+  if case.get('_kind') == 'located':
+    stats['located'] = stats.get('located', 0) + 1
+    return
   k = 'fault:' + str(case.get('_fault'))
   stats[k] = stats.get(k, 0) + 1
   res = impl['out'][case['_nregs']]
